@@ -356,7 +356,10 @@ def r041_input(an, rep):
     n = 0
     for f in an.closure("from_code"):
         for c in ast.walk(f.node):
-            if isinstance(c, ast.Call) and isinstance(c.func, ast.Name) and c.func.id == ai.name:
+            # ArgsInput(...) or `cls(...)` inside a classmethod of ArgsInput
+            is_ctor = isinstance(c, ast.Call) and isinstance(c.func, ast.Name) and (c.func.id == ai.name or (
+                f.cls is not None and f.cls.qual == ai.qual and f.is_classmethod and f.params and c.func.id == f.params[0]))
+            if is_ctor:
                 given = {k.arg: k.value for k in c.keywords if k.arg}
                 for fl, a in zip(ai.fields, c.args):
                     given[fl.name] = a
